@@ -9,6 +9,11 @@
 //!   `d <hex text>`   the same for the arguments of a declaration utility (`typeset <text>`): `name=value` words
 //!                    are not subject to pathname expansion, tilde expansion is looked for after `=` and `:`
 //!   `v s:<hex>` / `v a:<hex>,…`  `Value::quote` of a scalar / array through the API (`QuotedValue`)
+//!   `s <hex text>`   a whole multi-line text through the real `Lexer` (token classes) and the real `Parser`
+//!                    (`command_line` → `simple_command`, `array_values`, `Assign::try_from`,
+//!                    `determine_expansion_mode`, declaration utilities = the built-ins of a real environment):
+//!                    the assignments and fields of its newline-separated simple commands, or `none`;
+//!                    oracle (listing-shaped texts built with the real quoter): reads back as the entries
 //!   `c <codepoint>`  `char::is_whitespace`, `quoted(c).needs_quoting()`, `is_blank`, `is_token_delimiter_char`
 //!   `L <listing case>`  definition history in one virtual shell, listings printed, evaluated in a fresh one
 //!
@@ -585,6 +590,16 @@ mod listing {
         }
     }
 
+    pub fn gen_ident(r: &mut Rng) -> String {
+        ident(r)
+    }
+    pub fn gen_dash_name(r: &mut Rng) -> String {
+        dash_name(r)
+    }
+    pub fn gen_weird(r: &mut Rng, max: usize, allow_eq: bool) -> String {
+        weird(r, max, allow_eq)
+    }
+
     pub fn gen_case(r: &mut Rng) -> String {
         let n = 1 + r.below(8);
         let mut ops: Vec<String> = vec![];
@@ -1049,6 +1064,237 @@ fn run_v(case: &str, spec: &str) {
 }
 
 // ------------------------------------------------------------------------------------------------
+// s leg: a whole text read as newline-separated simple commands by the real lexer + parser
+
+mod script {
+    use super::*;
+    use std::cell::RefCell;
+    use std::rc::Rc;
+    use yash_syntax::parser::Parser;
+    use yash_syntax::parser::lex::Operator;
+    use yash_syntax::syntax::{Command, ExpansionMode, Value};
+    use yverif::shell::{Config, run_with};
+
+    /// characters of a word all of whose units are literal / quoted (no expansion, no tilde unit)
+    fn plain(word: &Word) -> Option<String> {
+        Some(word.units.iter().map(unit_chars).collect::<Option<Vec<String>>>()?.concat())
+    }
+
+    /// only newline, `(` and `)` operator tokens (everything else is outside the model)
+    fn tokens_in_scope(text: &str) -> Option<()> {
+        let mut lexer = Lexer::with_code(text);
+        loop {
+            lexer.skip_blanks_and_comment().now_or_never()?.ok()?;
+            let t = lexer.token().now_or_never()?.ok()?;
+            match t.id {
+                TokenId::Operator(Operator::Newline | Operator::OpenParen | Operator::CloseParen) => {}
+                TokenId::Token(_) => {}
+                TokenId::EndOfInput => return Some(()),
+                _ => return None,
+            }
+        }
+    }
+
+    fn read(text: &str, glossary: &dyn yash_syntax::decl_util::Glossary) -> Option<Vec<String>> {
+        tokens_in_scope(text)?;
+        let mut lexer = Lexer::with_code(text);
+        let mut parser = Parser::config().declaration_utilities(glossary).input(&mut lexer);
+        let mut cmds = vec![];
+        loop {
+            let Some(list) = parser.command_line().now_or_never()?.ok()? else { break };
+            for item in &list.0 {
+                if item.async_flag.is_some() || !item.and_or.rest.is_empty() {
+                    return None;
+                }
+                let p = &item.and_or.first;
+                if p.negation || p.commands.len() != 1 {
+                    return None;
+                }
+                let Command::Simple(sc) = &*p.commands[0] else { return None };
+                if !sc.redirs.is_empty() {
+                    return None;
+                }
+                let mut parts = vec![];
+                for a in &sc.assigns {
+                    match &a.value {
+                        Value::Scalar(w) => parts.push(format!("s{}={}", enc_str(&a.name), enc_str(&plain(w)?))),
+                        Value::Array(ws) => {
+                            let vs: Vec<String> = ws.iter().map(|w| field_of(w).map(|f| enc_str(&f))).collect::<Option<_>>()?;
+                            parts.push(format!("a{}={}", enc_str(&a.name), if vs.is_empty() { ".".to_string() } else { vs.join("+") }));
+                        }
+                    }
+                }
+                for (w, mode) in &sc.words {
+                    let f = match mode {
+                        ExpansionMode::Multiple => field_of(w)?,
+                        ExpansionMode::Single => plain(w)?,
+                    };
+                    parts.push(format!("w{}", enc_str(&f)));
+                }
+                cmds.push(parts.join(","));
+            }
+        }
+        Some(cmds)
+    }
+
+    /// observation per text; all texts are read inside one configured environment (its built-ins are the glossary)
+    pub fn observe(texts: &[String]) -> Vec<String> {
+        let out: Rc<RefCell<Vec<String>>> = Rc::new(RefCell::new(vec![]));
+        for chunk in texts.chunks(2000) {
+            let chunk: Vec<String> = chunk.to_vec();
+            let n = chunk.len();
+            let sink = Rc::clone(&out);
+            let before = out.borrow().len();
+            run_with(
+                Config::new(":\n"),
+                move |env, _| {
+                    for t in &chunk {
+                        let o = guarded(|| match read(t, &*env) {
+                            None => "none".to_string(),
+                            Some(c) => format!("some:{}", c.join(";")),
+                        });
+                        // known defect outside this property (C06): `${` at the end of input panics
+                        let o = if o.starts_with("PANIC") && t.replace("\\\n", "").contains("${") { "none".to_string() } else { o };
+                        sink.borrow_mut().push(o);
+                    }
+                },
+                |_, _| (),
+            );
+            while out.borrow().len() < before + n {
+                out.borrow_mut().push("no-environment".to_string());
+            }
+        }
+        Rc::try_unwrap(out).map(|c| c.into_inner()).unwrap_or_default()
+    }
+
+    const PIECES: &[&str] = &[
+        "typeset", "export", "readonly", "command", "alias", "trap", "set", "if", "}", "!", "a", "b=", "a=", "=", "(", ")", "\n",
+        "\n", " ", " ", "  ", "#", "'x y'", "\"q\"", "\\\n", "\\", "~", ":", "[", "]", "*", ";", "$", "x", "-x", "--", "'", "\"",
+        "\t", "1", "a=b", "c:~d", "\u{3000}", "a=(", "=(", "+o", "vi", "''", "&", "{", "a b", "\\ ", "\\=",
+    ];
+
+    /// a line shaped like the listings, built with the REAL quoter; second component: the observation the
+    /// property demands (`None`: no demand, e.g. the known cross-bracket alias entries)
+    fn listing_line(r: &mut Rng) -> (String, Option<String>) {
+        let q = |s: &str| yash_quote::quoted(s).to_string();
+        let name = |r: &mut Rng| match r.below(6) {
+            0 | 1 => listing::gen_ident(r),
+            2 => listing::gen_dash_name(r),
+            _ => listing::gen_weird(r, 4, false),
+        };
+        let w = |s: &str| format!("w{}", enc_str(s));
+        match r.below(9) {
+            0..=2 => {
+                let b = *r.pick(&["typeset", "export", "readonly"]);
+                let n = name(r);
+                let v = listing::gen_weird(r, 6, true);
+                let mut line = b.to_string();
+                let mut exp = vec![w(b)];
+                if b == "typeset" {
+                    for o in ["-r", "-x"] {
+                        if r.chance(1, 3) {
+                            line.push_str(&format!(" {o}"));
+                            exp.push(w(o));
+                        }
+                    }
+                }
+                if n.starts_with(['-', '+']) || r.chance(1, 4) {
+                    line.push_str(" --");
+                    exp.push(w("--"));
+                }
+                if r.chance(1, 5) {
+                    line.push_str(&format!(" {}", q(&n)));
+                    exp.push(w(&n));
+                } else {
+                    line.push_str(&format!(" {}={}", q(&n), q(&v)));
+                    exp.push(w(&format!("{n}={v}")));
+                }
+                (line, Some(exp.join(",")))
+            }
+            3 => {
+                let n = listing::gen_ident(r);
+                let v = listing::gen_weird(r, 6, true);
+                (format!("{n}={}", q(&v)), Some(format!("s{}={}", enc_str(&n), enc_str(&v))))
+            }
+            4 => {
+                let n = listing::gen_ident(r);
+                let k = r.below(4);
+                let mut vs: Vec<String> = (0..k).map(|_| listing::gen_weird(r, 4, true)).collect();
+                if r.chance(1, 4) {
+                    vs.push(r.pick(&["if", "}", "!", "done", "in"]).to_string());
+                }
+                let text = format!("{n}=({})", vs.iter().map(|v| q(v)).collect::<Vec<_>>().join(" "));
+                let e = if vs.is_empty() { ".".to_string() } else { vs.iter().map(|v| enc_str(v)).collect::<Vec<_>>().join("+") };
+                (text, Some(format!("a{}={}", enc_str(&n), e)))
+            }
+            5 => {
+                let a = listing::gen_weird(r, 8, true);
+                let c = *r.pick(listing::CONDS);
+                (format!("trap -- {} {c}", q(&a)), Some([w("trap"), w("--"), w(&a), w(c)].join(",")))
+            }
+            6 => {
+                let o = *r.pick(listing::OPTS);
+                let f = *r.pick(&["-o", "+o"]);
+                if r.chance(1, 3) { (format!("#set {f} {o}"), Some(String::new())) } else { (format!("set {f} {o}"), Some([w("set"), w(f), w(o)].join(","))) }
+            }
+            7 => {
+                let n = name(r);
+                let v = listing::gen_weird(r, 8, true);
+                let bare = |s: &str| !yash_quote::quoted(s).needs_quoting();
+                let cross = bare(&n) && bare(&v) && n.contains('[') && v.contains(']');
+                let exp = [w("alias"), w("--"), w(&format!("{n}={v}"))].join(",");
+                (format!("alias -- {}={}", q(&n), q(&v)), if cross { None } else { Some(exp) })
+            }
+            _ => {
+                let n = name(r);
+                let sep = if n.starts_with(['-', '+']) { "-- " } else { "" };
+                (format!("typeset -fr {sep}{}", q(&n)), Some([w("typeset"), w("-fr")].into_iter().chain((!sep.is_empty()).then(|| w("--"))).chain([w(&n)]).collect::<Vec<_>>().join(",")))
+            }
+        }
+    }
+
+    /// (text, demanded observation)
+    pub fn gen_text(r: &mut Rng) -> (String, Option<String>) {
+        if r.chance(1, 2) {
+            let n = 1 + r.below(9);
+            let t: String = (0..n).map(|_| *r.pick(PIECES)).collect();
+            (t, None)
+        } else {
+            let n = 1 + r.below(5);
+            let mut text = String::new();
+            let mut exp: Option<Vec<String>> = Some(vec![]);
+            for _ in 0..n {
+                let (l, e) = listing_line(r);
+                text.push_str(&l);
+                text.push('\n');
+                match (e, exp.as_mut()) {
+                    (Some(e), Some(v)) => {
+                        if !e.is_empty() {
+                            v.push(e)
+                        }
+                    }
+                    _ => exp = None,
+                }
+            }
+            (text, exp.map(|v| format!("some:{}", v.join(";"))))
+        }
+    }
+
+    pub fn run(cases: &[(String, Option<String>)]) {
+        let texts: Vec<String> = cases.iter().map(|c| c.0.clone()).collect();
+        let obs = observe(&texts);
+        for ((t, want), o) in cases.iter().zip(&obs) {
+            let oracle = match want {
+                None => "-".to_string(),
+                Some(w) if w == o => "ok".to_string(),
+                Some(_) => "FAIL:listing-shaped-text-does-not-read-back".to_string(),
+            };
+            emit(&format!("s {}", enc_str(t)), o, &oracle);
+        }
+    }
+}
+
+// ------------------------------------------------------------------------------------------------
 // c leg
 
 fn run_c(cp: u32) {
@@ -1085,6 +1331,10 @@ fn run_fixed(case: &str) {
         ["v", t] => run_v(case, t),
         ["d", t] => match dec_str(t) {
             Some(s) => run_d(&[s]),
+            None => emit(case, "bad-case", "-"),
+        },
+        ["s", t] => match dec_str(t) {
+            Some(s) => script::run(&[(s, None)]),
             None => emit(case, "bad-case", "-"),
         },
         ["c", t] => match t.parse() {
@@ -1184,6 +1434,18 @@ fn main() {
             run_v(&case, case.split_once(' ').unwrap().1);
         }
     }
+
+    // ---- s leg: whole texts through the real lexer and parser
+    let mut rng = Rng::new(o.seed ^ 0xC07_6);
+    let mut cases = vec![];
+    for k in 0..(if thorough { 200_000 } else { 8_000 }) {
+        let mut r = rng.fork();
+        let c = script::gen_text(&mut r);
+        if mine(k) {
+            cases.push(c);
+        }
+    }
+    script::run(&cases);
 
     // ---- c leg: every code point in thorough tier
     let top: u32 = if thorough { 0x110000 } else { 0x3100 };
